@@ -120,6 +120,9 @@ def pass_equiv(design, passname, steps, regs=None, mems=None, regsB=None, sancti
     except Exception as e:
         return dict(failed=True, observed='simulating the result raised %s: %s'
                     % (type(e).__name__, str(e)[:300]), expected=outA)
+    missing = sorted(bn for an in outA for (bn, lo, w) in corr['out'].get(an, []) if bn not in outB_raw)
+    if missing:
+        return dict(failed=True, observed='Outputs missing from the result: %s' % missing[:6], expected=outA)
     outB = {}
     for an in outA:
         vals = []
